@@ -17,8 +17,19 @@
 //! values are equal are counted (`bytes-differ-values-equal`) but not asserted: the
 //! statement speaks of values.
 //!
+//! Sub-checks: `three-syntaxes` (the search; shapes of C26's open findings are not generated
+//! while they are listed as `known` — flags derived from known_findings.json) and
+//! `open-finding-shapes` (the same search with those shapes generated: every failure must
+//! carry a listed signature).
+//!
+//! Attribution (`check_case`): a failing case is renamed to a finding's signature only if it
+//! *passes* once that finding's shape is removed while the tree stays the same — surrogate
+//! pair escapes written raw, line breaks after bare JSON scalars reduced to one, `reverse` /
+//! `tonumber` guarded by a type test — or, for the tab finding, if the JSON route reports
+//! "tab character used for indentation" and the text has a tab outside its root value.
+//!
 //! Structured replays: `{"input": {"json", "block_yaml", "flow_yaml", "program"}}` (texts, or
-//! `*_hex`).
+//! `*_hex`). Development aid: `VH_C26_SURVEY=<file>` logs every failure and keeps searching.
 use crate::cli;
 use crate::engine::*;
 use crate::gen::json::{self as gj, j_eq, to_compact, J};
